@@ -176,10 +176,12 @@ def run(ctx):
                 six = [v for s, v in gs if 'contains_key' in s]
                 dofs = []
                 for i2, j2, st2 in b.stmts():
-                    if [e.get('name') for e in st2['lhs']['proj'] if e['k'] == 'field'] == ['dof'] and util.const_val(b.rv_term(st2['rv'], (i2, j2))) == 5:
-                        g2 = [opw.truth(k) for g, k, sw in b.guard_terms(i2) if 'contains_key' in show(g, maxdepth=5)]
-                        if g2 == [False]:
-                            dofs.append((i2, j2))
+                    if [e.get('name') for e in st2['lhs']['proj'] if e['k'] == 'field'] == ['dof']:
+                        for vt, vb in util.value_cases(b, i2, j2, st2):
+                            if util.const_val(vt) == 5:
+                                g2 = [opw.truth(k) for g, k, sw in b.guard_terms(vb) if 'contains_key' in show(g, maxdepth=5)]
+                                if g2 == [False]:
+                                    dofs.append((i2, j2))
                 ok = iv == 5 and six == [False] and len(dofs) == 1
         ctx.check(ok, 'R06.5', 'urdf/suppress-j6', b.where(0), b.path, 'sign_corrections[5] = 0 and dof = 5 must be set together, exactly when joint 6 is absent')
     # "J6 as requested" and "tool point exact" are statements about the whole wrapper stack too: every wrapper must hand the
@@ -204,4 +206,55 @@ def _suppress(ctx, b, key, pred):
             found = 'sign[%s] = %s under %s' % (iv, val, [show(g, maxdepth=4) for g, v in gs][-2:])
             if iv == 5 and val == 0 and cond == [True]:
                 ok = True
+    if not ok:
+        ok2, found2 = _suppress_by_value(ctx, b)
+        if ok2 is not None:
+            ok, found = ok2, found2
     ctx.check(ok, 'R06.5', key + '/suppress-j6', b.where(0), b.path, 'sign_corrections[5] must be set to 0 exactly on the dof == 5 edge', found=found, detail=found or '')
+
+
+def _suppress_by_value(ctx, b):
+    """the sign array is not patched in place but rebuilt (`[s1, s2, s3, s4, s5, if dof == 5 { 0 } else { s6 }]`, a match with
+    an array pattern ..): the value stored in the returned Parameters is resolved for dof == 5 and for dof != 5."""
+    prog = ctx.prog
+    for i, j, st in b.stmts():
+        rv = st['rv']
+        if not (rv['k'] == 'agg' and isinstance(rv.get('kind'), dict) and (rv['kind'].get('adt') or '').endswith('::Parameters')):
+            continue
+        fields = rv['kind'].get('fields') or []
+        if 'sign_corrections' not in fields or 'dof' not in fields:
+            continue
+        t = b.rv_term(rv, (i, j))
+        sc = t[2 + fields.index('sign_corrections')]
+        dof = strip(t[2 + fields.index('dof')])
+        cond = None
+        for c in util.branch_conditions(b, sc):
+            ev = util.edge_value(c, True)
+            if ev is not None and ev[1] == 5 and strip(ev[0]) in (dof, strip(dof[1]) if dof[0] == 'cast' else dof):
+                cond = c
+        if cond is None:
+            return None, None
+        t5 = strip(util.peval(prog, util.resolve_case(b, sc, {cond: True})))
+        t6 = strip(util.peval(prog, util.resolve_case(b, sc, {cond: False})))
+
+        def elems(x):
+            if isinstance(x, tuple) and x[0] == 'agg' and x[1] == 'array' and len(x) == 8:
+                return [strip(e) for e in x[2:]]
+            return None
+        e5 = elems(t5)
+        if e5 is None or util.const_val(e5[5]) != 0:
+            return False, 'for dof == 5 the stored signs are %s' % show(t5, maxdepth=4)
+        bases = set()
+        for k in range(5):
+            if not (isinstance(e5[k], tuple) and e5[k][0] == 'idx' and util.const_val(e5[k][2]) == k):
+                return False, 'for dof == 5 entry %d is %s' % (k, show(e5[k], maxdepth=4))
+            bases.add(strip(e5[k][1]))
+        if len(bases) != 1:
+            return False, 'entries 1..5 come from different arrays'
+        R = next(iter(bases))
+        if not mir.contains(R, lambda x: x[0] == 'call'):
+            return False, 'entries 1..5 are not read from the file'
+        e6 = elems(t6)
+        whole = t6 == R or (e6 is not None and all(isinstance(e6[k], tuple) and e6[k][0] == 'idx' and util.const_val(e6[k][2]) == k and strip(e6[k][1]) == R for k in range(6)))
+        return whole, 'dof == 5: [r0..r4, 0]; otherwise: %s' % ('as read' if whole else show(t6, maxdepth=4))
+    return None, None
